@@ -436,7 +436,8 @@ def table_stream(ctx):
 
             def go():
                 bad = [loc for loc in code.qubit_coordinates
-                       if check_case({'kind': 'geom', 'code': tag, 'size': list(size), 'edge': list(loc)})]
+                       if check_case({'kind': 'geom', 'code': tag, 'size': list(size), 'edge': list(loc),
+                                      'rows': 'as-decoder'})]
                 return f'{len(bad)}/{code.n} ' + ';'.join(loc_s(b) for b in bad)
             s.add(f'sw.table {DEC_OF[tag]} {spec(tag, size)}', guarded(go),
                   {'code': CODE_NAME[tag], 'size': list(size), 'what': 'edges with inconsistent flip table'},
@@ -480,6 +481,12 @@ def check_case(case):
             signs = np.zeros(code.n_stabilizers, dtype=np.uint8)
             dec.flip_edge(loc, signs)
             want = face_syndrome(code, error_vec(code, [code.qubit_index[loc]]))
+            if case.get('rows') == 'as-decoder':
+                # the hypothesis as the MODEL states it (flipTableOK): face rows = the rows the decoder does not
+                # blank in get_initial_state (`signs[z_indices] = 0`); differs from the rows of type 'face' only on
+                # the mixed X/Z generators of the defect lines of odd-sized RotatedToric3DCode
+                syn = np.array(code.measure_syndrome(error_vec(code, [code.qubit_index[loc]]))).astype(int).reshape(-1)
+                want = syn * (1 - np.asarray(code.z_indices).astype(int))
             got = np.array(signs).astype(int)
             if not np.array_equal(got, want):
                 return (f'flip_edge({loc}) toggles stabilizer rows {np.nonzero(got)[0].tolist()} but the face '
